@@ -77,8 +77,8 @@ if hdr in d:
 
     def bkey(p):
         b = os.path.basename(os.path.dirname(p))
-        a, n = b.split("-b")
-        return (a, int(n))
+        a, n = b.split("-")
+        return (a, n[0], int(n[1:]))
 
     for f in sorted(glob.glob(os.path.join(V, "benign", "*", "meta.json")), key=bkey):
         mt = json.load(open(f))
